@@ -6,11 +6,13 @@ Output: "#case" lines are echoed; one model line per operation.
 -/
 import LA.Drive.Lnk
 import LA.Drive.Pm
+import LA.Drive.Match
 open LA
 
 def engines : List (String × Engine) := [
   ("lnk", LA.Lnk.engine),
-  ("pm", LA.Pm.engine)
+  ("pm", LA.Pm.engine),
+  ("match", LA.Match.engine)
 ]
 
 partial def loop (e : Engine) (h : IO.FS.Stream) (out : IO.FS.Stream) (s : e.σ) : IO Unit := do
